@@ -29,6 +29,8 @@ def enc(v):
         return {'t': [enc(x) for x in v]}
     if isinstance(v, (list, deque, array)):
         return {'l': [enc(x) for x in v]}
+    if type(v).__name__ == 'datetime64' and type(v).__module__ == 'numpy':
+        return {'npdt': int(v.astype('int64'))}
     if isinstance(v, BaseException):
         return {'exc': type(v).__name__}
     if isinstance(v, _Vec):
@@ -54,6 +56,9 @@ def dec(j):
             return tuple([dec(x) for x in j['t']])
         if 'l' in j:
             return [dec(x) for x in j['l']]
+        if 'npdt' in j:
+            import numpy
+            return numpy.datetime64(j['npdt'], 'ns')     # a key whose .item() is a plain int that is a DIFFERENT key
         if 'subint' in j:
             return _SubInt(j['subint'])
         if 'subfloat' in j:
@@ -254,6 +259,15 @@ def fn1(d):
             x[0] = d[1]
             return x
         return sf
+    if n == 'amb_if_mod':
+        # a predicate whose answer has no truth value for some items (a comparison with pd.NA, a multi-element array): evaluating
+        # the answer as a condition raises ValueError
+        k, r = d[1], d[2]
+        return lambda x: _Amb() if x % k == r else True
+    if n == 'nan_none_mod':
+        # group keys that are a FRESH NaN for some items, None for others, the item itself otherwise (None and NaN are different keys)
+        k = d[1]
+        return lambda x: float('nan') if x % k == 0 else (None if x % k == 1 else x)
     if n == 'list_of':
         # a fresh list as value (lists compare by ==, and differ from every tuple)
         k = d[1]
